@@ -1429,3 +1429,69 @@ func E3RayImplicitClose(c *core.Ctx, r *core.Report) {
 		r.Fail("E3.ray-implicit-close", key, c.Pos(fd.Pos()), "no variable keeps the first point of the current sub-path (every Point assigned in the MoveTo case is also advanced by the other cases): the segment that implicitly closes an open sub-path is never intersected, so Windings, Crossings and Contains ignore it")
 	}
 }
+
+// E3DominantAxis: choosing the dominant axis of a vector compares magnitudes.
+func E3DominantAxis(c *core.Ctx, r *core.Report) {
+	r.Rule("E3.dominant-axis", "a comparison between the X and the Y component of one vector (v.X < v.Y and the like) that selects which component is examined afterwards compares absolute values: both operands are math.Abs(…) of the components. On signed components a vector pointing in a negative direction takes the wrong axis (whose component may be zero, so every sign test on it succeeds); in LineTo a line that turns back on itself is then merged into its predecessor and the requested geometry is lost")
+	p := c.MustPkg("")
+	info := p.TypesInfo
+	n := 0
+	comp := func(e ast.Expr) (types.Object, string, bool) {
+		// v.X / v.Y, optionally inside math.Abs
+		abs := false
+		if name, call := core.MathFunc(info, e); call != nil && name == "Abs" && len(call.Args) == 1 {
+			abs = true
+			e = call.Args[0]
+		}
+		sel, ok := core.Unparen(e).(*ast.SelectorExpr)
+		if !ok || (sel.Sel.Name != "X" && sel.Sel.Name != "Y") {
+			return nil, "", false
+		}
+		id, ok := core.Unparen(sel.X).(*ast.Ident)
+		if !ok {
+			return nil, "", false
+		}
+		if t := info.TypeOf(id); t == nil || !isNamed(t, "tdewolff/canvas", "Point") {
+			return nil, "", false
+		}
+		return core.ObjOf(info, id), sel.Sel.Name, abs
+	}
+	for _, fd := range core.AllFuncDecls(p) {
+		if fd.Body == nil || strings.HasSuffix(c.Fset.Position(fd.Pos()).Filename, "_test.go") {
+			continue
+		}
+		fname := "canvas." + core.FuncName(fd)
+		ord := 0
+		ast.Inspect(fd.Body, func(m ast.Node) bool {
+			is, ok := m.(*ast.IfStmt)
+			if !ok {
+				return true
+			}
+			be, ok := core.Unparen(is.Cond).(*ast.BinaryExpr)
+			if !ok {
+				return true
+			}
+			switch be.Op {
+			case token.LSS, token.GTR, token.LEQ, token.GEQ:
+			default:
+				return true
+			}
+			o1, c1, a1 := comp(be.X)
+			o2, c2, a2 := comp(be.Y)
+			if o1 == nil || o1 != o2 || c1 == c2 {
+				return true
+			}
+			n++
+			ord++
+			key := fmt.Sprintf("%s|axis choice #%d", fname, ord)
+			if a1 && a2 {
+				r.OK("E3.dominant-axis", key, c.Pos(is.Pos()), types.ExprString(is.Cond))
+			} else {
+				r.Fail("E3.dominant-axis", key, c.Pos(is.Pos()), fmt.Sprintf("`%s` compares the signed components of one vector to choose an axis: for a vector pointing left or down the smaller (possibly zero) component wins", types.ExprString(is.Cond)))
+			}
+			return true
+		})
+	}
+	r.Count("E3.axis-choices", n)
+	r.Floor("E3.axis-choices", 1)
+}
